@@ -54,6 +54,10 @@ type Case struct {
 	// after the reconnect the OLD parent still hands in a frame it had read from the moved agent's
 	// pipe before (it sleeps longer than the new parent): none | getjob | callback
 	StaleFrame string `json:"stale_frame,omitempty"`
+	// Rekey: before the last task one hop between the first hop and the target answers a CHECKIN task
+	// with metadata carrying a new session key (demons.go COMMAND_CHECKIN adopts it): 0 = nobody,
+	// otherwise 1-based index into the hops strictly between first hop and target (mod their number)
+	Rekey int `json:"rekey,omitempty"`
 }
 
 func keyFrom(seed byte) ([]byte, []byte) {
@@ -98,6 +102,7 @@ func gen(t *rapid.T) Case {
 	if rapid.IntRange(0, 2).Draw(t, "relink?") > 0 {
 		c.Relink = rapid.IntRange(1, depth).Draw(t, "relink")
 		c.StaleFrame = rapid.SampledFrom([]string{"", "", "getjob", "callback"}).Draw(t, "stale")
+		c.Rekey = rapid.SampledFrom([]int{0, 0, 1, 2, 3}).Draw(t, "rekey")
 		for {
 			c.NewRoot = idg.Draw(t, "newroot")
 			if !seen[c.NewRoot] && c.NewRoot != c.SideID {
@@ -427,6 +432,26 @@ func relink(c Case, w *agx.World, chain []sess, tag string) *core.Violation {
 	// whatever the connects left queued is not looked at
 	w.Checkin(chain[0], nil)
 	w.Checkin(r2, nil)
+	if mids := len(nchain) - 2; c.Rekey > 0 && mids > 0 {
+		// a hop strictly between the new first hop and the target is asked to check in and answers
+		// with a new session key; from then on its layer must be sealed with that key
+		hi := 1 + (c.Rekey-1)%mids
+		hop := nchain[hi]
+		req := c.TaskID ^ 0x03030303
+		w.Input("op", map[string]interface{}{"DemonID": hop.NameID(), "CommandID": "100", "TaskID": fmt.Sprintf("%08x", req), "CommandLine": "checkin"})
+		w.Checkin(r2, nil) // the first hop picks the (wrapped) check-in task up
+		nk, niv := keyFrom(0x77 + byte(hi))
+		body := hop.Meta.InitBody(nk, niv, false)
+		pkg := demonref.Batch(hop.ID, 0, []demonref.Sub{{Cmd: demonref.CmdCheckin, ReqID: req, Body: body}}, hop.Key, hop.IV)
+		if code, _ := w.Post(wrapUp(nchain, hi, pkg)); code != 200 {
+			return core.V("rekey|status|"+tag, "the relayed CHECKIN answer of hop %08x was answered %d", hop.ID, code)
+		}
+		if a := w.Agent(hop.ID); a != nil && string(a.Encryption.AESKey) == string(nk) {
+			nchain[hi].Key, nchain[hi].IV = nk, niv
+			tag += "|rekeyed-hop"
+		}
+		// (a tree that ignores the new key keeps the old one: then the old key stays the hop's key)
+	}
 	target := chain[depth]
 	req := c.TaskID ^ 0x02020202
 	w.Input("op", map[string]interface{}{"DemonID": target.NameID(), "CommandID": "11", "TaskID": fmt.Sprintf("%08x", req), "CommandLine": "sleep", "Arguments": fmt.Sprintf("%d;%d", c.Jitter, c.Delay%101)})
@@ -495,6 +520,9 @@ func classify(c Case) core.Class {
 		if c.StaleFrame != "" {
 			cl.Labels = append(cl.Labels, "stale-frame-from-old-parent:"+c.StaleFrame)
 		}
+		if c.Rekey > 0 && depth-c.Relink >= 1 {
+			cl.Labels = append(cl.Labels, "intermediate-hop-announces-a-new-key")
+		}
 		cl.Fingerprint += "|relink=" + pos
 	}
 	if big {
@@ -506,7 +534,7 @@ func classify(c Case) core.Class {
 func TestC08(t *testing.T) {
 	core.Run(t, core.Spec[Case]{
 		Property: "C08", Sub: "a",
-		Rule: "pivot chains of depth 1-5 (optional sibling of the target) built through real, relayed SMB_CONNECT callbacks; ids from {1,2,2^31-1,2^31,2^32-1,random}, distinct keys; two operator tasks (sleep, fs/cd) for the last agent are unwrapped from the first hop's check-in reply layer by layer with each hop's own key and SmbRecv's frame rules; then a callback of the last agent is wrapped once per ancestor in scenarios ok / id never issued / id outstanding only for the parent / encrypted under the parent's key / sent by the sibling with the target's id / one frame mixing callbacks with never-issued ids and the outstanding one in either order; then (2 of 3 cases) one agent of the chain - the target or one of its ancestors - reconnects under a new directly connected agent (in half of these the old parent afterwards still hands in a frame it had read from the moved agent: the link must stay as the reconnect set it) and a third task for the last agent must be found, correctly wrapped for the new chain, at the new first hop and not at the old one. Non-trivial: depth >= 2 or an id >= 2^31; distinct = (depth, big id, sibling, scenario)",
+		Rule: "pivot chains of depth 1-5 (optional sibling of the target) built through real, relayed SMB_CONNECT callbacks; ids from {1,2,2^31-1,2^31,2^32-1,random}, distinct keys; two operator tasks (sleep, fs/cd) for the last agent are unwrapped from the first hop's check-in reply layer by layer with each hop's own key and SmbRecv's frame rules; then a callback of the last agent is wrapped once per ancestor in scenarios ok / id never issued / id outstanding only for the parent / encrypted under the parent's key / sent by the sibling with the target's id / one frame mixing callbacks with never-issued ids and the outstanding one in either order; then (2 of 3 cases) one agent of the chain - the target or one of its ancestors - reconnects under a new directly connected agent (in half of these the old parent afterwards still hands in a frame it had read from the moved agent: the link must stay as the reconnect set it; in some a hop between the new first hop and the target answers a CHECKIN task with a new session key, which its layer must then be sealed with) and a third task for the last agent must be found, correctly wrapped for the new chain, at the new first hop and not at the old one. Non-trivial: depth >= 2 or an id >= 2^31; distinct = (depth, big id, sibling, scenario)",
 		Gen:   gen, Check: check, Classify: classify,
 		Assumptions: []string{"the Demon's pipe framing and PivotPush wrapping are transcribed from TransportSmb.c / Pivot.c / Command.c"},
 	})
